@@ -98,6 +98,10 @@ def new_engine(contracts, prop):
 def piece_call(eng, ref, args):
     """a curve piece applied to a scalar parameter (or a Vec of parameters)"""
     x = args[0]
+    from pyvc.arrays import NArr
+    if isinstance(x, NArr):
+        return Vec([NArr(x.length, lambda i, x=x: GX(ref.term, to_real(x.elem(i))), "gx"),
+                    NArr(x.length, lambda i, x=x: GY(ref.term, to_real(x.elem(i))), "gy")])
     if isinstance(x, Vec):
         xs = [piece_call(eng, ref, [xi]) for xi in x.items]
         return Vec([Vec([p.items[0] for p in xs]), Vec([p.items[1] for p in xs])])
